@@ -47,6 +47,7 @@ class C01(HistoryProperty):
 
     def gen_case(self, rng, tier):
         cfg = gen.swarm_cfg(rng, on=("dsclass",))
+        cfg["user_evaluatables"] = rng.random() < 0.4  # user-defined Evaluatable subclasses in the place of plain Options
         cfg["labrea_keys"] = rng.random() < 0.4  # dictionaries that carry the reserved LABREA section (logging / effects switches)
         if cfg["labrea_keys"]:
             cfg["alloptions"] = True
